@@ -201,6 +201,26 @@ Example pinned_orders_rejected :
   /\ reports_mismatch [InWeights; InPoints] no_facts rib_guards_before_f977178 = false.
 Proof. repeat split. Qed.
 
+(* ---- large calls are written compactly by the harness (run-length encoded lists + the positions
+   at which the caller's array changed, [diff_of] = that comparison); Run/RunC20.v [big20] rebuilds
+   the plain lists with [of_runs] / [patch_ids].  The rebuilt array after the call is exactly the
+   observed one, and the comparison is empty exactly when the array is untouched. *)
+Theorem C20_compact_after_faithful : forall before after,
+  length before = length after -> patch_ids before 0 (diff_of before after 0) = after.
+Proof. exact (fun before after => patch_diff before after 0%N). Qed.
+Print Assumptions C20_compact_after_faithful.
+
+Theorem C20_compact_untouched_iff : forall before after,
+  length before = length after -> (diff_of before after 0 = [] <-> before = after).
+Proof. exact (fun before after => diff_nil_iff before after 0%N). Qed.
+Print Assumptions C20_compact_untouched_iff.
+
+Example C20_compact_example :
+  of_runs [(WPos, 3); (WNeg, 1)]%N = [WPos; WPos; WPos; WNeg]
+  /\ patch_ids (of_runs [(0, 2); (1, 2)])%N 0 [(3, 7)]%N = [0; 0; 1; 7]%N
+  /\ patch_ids [0; 1]%N 0 [(5, 7)]%N = [0; 1; 7]%N.
+Proof. repeat split. Qed.
+
 (* ---- non-vacuity: concrete calls satisfying the hypotheses (garbage 7s in the array), and
    well-formed calls passing every guard *)
 Example C20_nonvacuous_mismatch :
